@@ -1,4 +1,4 @@
-use crate::{LeanString, ToLeanStringError, UnwrapWithMsg, repr::Repr};
+use crate::{LeanString, ReserveError, ToLeanStringError, UnwrapWithMsg, repr::Repr};
 use alloc::string::String;
 use castaway::{LifetimeFree, match_type};
 use core::{fmt, fmt::Write, num::NonZero};
@@ -64,9 +64,28 @@ impl<T: fmt::Display> ToLeanString for T {
             &LeanString as s => return Ok(s.clone()),
 
             s => {
-                let mut buf = LeanString::new();
-                write!(buf, "{}", s)?;
-                return Ok(buf)
+                // `fmt::Write for LeanString` panics when an allocation fails. Write through the
+                // fallible `try_push_str` instead and report that failure as `Reserve`.
+                struct Writer {
+                    buf: LeanString,
+                    reserve_error: Option<ReserveError>,
+                }
+                impl fmt::Write for Writer {
+                    fn write_str(&mut self, s: &str) -> fmt::Result {
+                        self.buf.try_push_str(s).map_err(|e| {
+                            self.reserve_error = Some(e);
+                            fmt::Error
+                        })
+                    }
+                }
+                let mut writer = Writer { buf: LeanString::new(), reserve_error: None };
+                return match write!(writer, "{}", s) {
+                    Ok(()) => Ok(writer.buf),
+                    Err(e) => Err(match writer.reserve_error {
+                        Some(e) => ToLeanStringError::Reserve(e),
+                        None => ToLeanStringError::Fmt(e),
+                    }),
+                }
             }
         });
         Ok(LeanString(repr))
